@@ -116,6 +116,9 @@ def rand_case(rng, nested=False):
     if nested:
         kids.insert(rng.randint(0, len(kids)), rand_dep(rng, ids, nested_dep=True))
     user_head = [gen.TAG("title", {"k": "text", "s": "UT"}), gen.TAG("meta", attrs=[["name", {"t": "str", "s": "um"}]])][: rng.randint(0, 2)]
+    head_extra = {"attrs": [["data-head", {"t": "str", "s": "mine"}], ["class", {"t": "str", "s": "h"}]][: rng.randint(1, 2)]} if rng.random() < 0.25 else {}
+    if rng.random() < 0.15:
+        head_extra["ws"] = False
     if rng.random() < 0.25:
         # the user's own charset declaration (any value, any position) does not replace the document's
         user_head.insert(rng.randint(0, len(user_head)), gen.TAG("meta", attrs=[["charset", {"t": "str", "s": rng.choice(["latin-1", "utf-8", "UTF-8"])}]]))
@@ -129,18 +132,18 @@ def rand_case(rng, nested=False):
     elif shape == "body":
         content = [gen.TAG("body", *kids, via_fn=False, attrs=[["class", {"t": "str", "s": "bd"}]][: rng.randint(0, 1)])]
     elif shape == "html_full":
-        content = [gen.TAG("html", gen.TAG("head", *user_head, via_fn=False), gen.TAG("body", *kids, via_fn=False), via_fn=False, attrs=hattrs)]
+        content = [gen.TAG("html", gen.TAG("head", *user_head, via_fn=False, **head_extra), gen.TAG("body", *kids, via_fn=False), via_fn=False, attrs=hattrs)]
     elif shape == "html_nohead":
         content = [gen.TAG("html", gen.TAG("body", *kids, via_fn=False), via_fn=False, attrs=hattrs)]
     elif shape == "html_head_late":
-        content = [gen.TAG("html", *kids[:1], gen.TAG("body", *kids[1:], via_fn=False), gen.TAG("head", *user_head, via_fn=False), via_fn=False, attrs=hattrs)]
+        content = [gen.TAG("html", *kids[:1], gen.TAG("body", *kids[1:], via_fn=False), gen.TAG("head", *user_head, via_fn=False, **head_extra), via_fn=False, attrs=hattrs)]
     elif shape == "html_nobody":
-        content = [gen.TAG("html", gen.TAG("head", *user_head, via_fn=False), *kids, via_fn=False, attrs=hattrs)]
+        content = [gen.TAG("html", gen.TAG("head", *user_head, via_fn=False, **head_extra), *kids, via_fn=False, attrs=hattrs)]
     elif shape == "html_deps_under":
-        content = [gen.TAG("html", rand_dep(rng, ids), gen.TAG("head", *user_head, via_fn=False), rand_dep(rng, ids), gen.TAG("body", *kids, via_fn=False), via_fn=False)]
+        content = [gen.TAG("html", rand_dep(rng, ids), gen.TAG("head", *user_head, via_fn=False, **head_extra), rand_dep(rng, ids), gen.TAG("body", *kids, via_fn=False), via_fn=False)]
     elif shape == "head_and_body":
         # a <head> next to a <body> is ordinary content (only a LONE <html> or <body> is taken as the document's own)
-        content = [gen.TAG("head", *user_head, via_fn=False), gen.TAG("body", *kids, via_fn=False)]
+        content = [gen.TAG("head", *user_head, via_fn=False, **head_extra), gen.TAG("body", *kids, via_fn=False)]
         if rng.random() < 0.4:
             content = content[::-1]
     elif shape == "body_plus_meta_siblings":
@@ -151,11 +154,12 @@ def rand_case(rng, nested=False):
     elif shape == "html_plus_meta_siblings":
         sib = [rand_dep(rng, ids) if rng.random() < 0.7 else {"k": "meta"} for _ in range(rng.randint(1, 2))]
         k = rng.randint(0, len(sib))
-        content = sib[:k] + [gen.TAG("html", gen.TAG("head", *user_head, via_fn=False), gen.TAG("body", *kids, via_fn=False), via_fn=False, attrs=hattrs)] + sib[k:]
+        content = sib[:k] + [gen.TAG("html", gen.TAG("head", *user_head, via_fn=False, **head_extra), gen.TAG("body", *kids, via_fn=False), via_fn=False, attrs=hattrs)] + sib[k:]
     else:
         content = [gen.TAG("html", gen.TAG("body", via_fn=False), via_fn=False), gen.TAG("body", *kids, via_fn=False)]
     kw = rng.choice([[], [["lang", {"t": "str", "s": "en"}]], [["lang", {"t": "str", "s": "en"}], ["data_x", {"t": "true"}]],
-                     [["class_", {"t": "str", "s": "doc"}], ["gone", {"t": "none"}]]])
+                     [["class_", {"t": "str", "s": "doc"}], ["gone", {"t": "none"}]],
+                     [["class_", {"t": "str", "s": "a"}], ["class", {"t": "str", "s": "b"}]], [["data_x", {"t": "str", "s": "1"}], ["data-x", {"t": "str", "s": "2"}], ["lang", {"t": "str", "s": "de"}]]])
     n_late = rng.choice([0, 0, 1, 2, 3]) if shape in ("fragment", "list") else 0
     if shape == "head_and_body" and rng.random() < 0.5:
         late_pair = content[1:]
@@ -341,7 +345,15 @@ def check_shared_content(ctx, case):
     d2 = ht.HTMLDocument(content, **kw)
     before = d2.render()["html"]
     ctx.count("oracle.shared_content")
+    import copy as _c
+    snap_doc = _c.copy(d2)
+    snap_before = snap_doc.render()["html"]
     d1.append(ht.div("appended-to-first"), ht.HTMLDependency("late-dep", "1.0", script={"src": "l.js"}))
+    d2_copy_source = _c.copy(d1)
+    d1.append(ht.div("appended-after-the-copy"))
+    if "appended-after-the-copy" in d2_copy_source.render()["html"] or snap_doc.render()["html"] != snap_before:
+        ctx.violation("document-content-aliased", "append() on a document shows up in a copy.copy() taken before", wit)
+        return False
     if len(content) != len(snapshot) or any(a is not b for a, b in zip(content, snapshot)):
         ctx.violation("document-content-aliased", "append() on a document changed the TagList it was built from", wit)
         return False
